@@ -33,6 +33,7 @@ pub fn dispatch(
         "nl" => nl(args, thorough, seed, total, bounds),
         "long" => long(args, thorough, seed, total, bounds),
         "aliased" => aliased(args, thorough, seed, total, bounds),
+        "grid" => grid(args, thorough, seed, total, bounds),
         _ => return false,
     }
     true
@@ -1118,4 +1119,68 @@ fn aliased(args: &Args, thorough: bool, seed: u64, total: &mut Report, bounds: &
     total.merge(rep);
     total.sample(0, || json!({"buffer": "\"abaab\"", "needle": "buffer[1..3]", "haystack": "buffer[0..4]", "note": "both operands are views of one allocation"}));
     bounds.insert("aliased".into(), json!({"buffers_over_ab_up_to": maxl, "operands": "every (needle sub-slice, haystack sub-slice) pair of the same buffer"}));
+}
+
+/// The full (needle length x haystack length) grid: EVERY pair of lengths up
+/// to a bound - so that any code gated on a combination of the two lengths
+/// (a ratio, a difference, two thresholds at once) is entered - with no
+/// occurrence, one occurrence at every position, or a truncated occurrence at
+/// the end.
+fn grid(args: &Args, thorough: bool, seed: u64, total: &mut Report, bounds: &mut Map<String, Value>) {
+    let kinds = crate::parse_kinds_pub(&args.str("subjects", "memmem,finder,finder-nopre,rmemmem,rfinder"));
+    let nmax = args.num("nmax", if thorough { 140 } else { 72 }) as usize;
+    let hmax = args.num("hmax", if thorough { 600 } else { 272 }) as usize;
+    let nkinds = if thorough { 3 } else { 2 };
+    let mut needles: Vec<Vec<u8>> = vec![];
+    for m in 0..=nmax {
+        for k in 0..nkinds {
+            let n: Vec<u8> = match k {
+                // all bytes distinct (up to 94), no period
+                0 => (0..m).map(|i| 33 + (i % 94) as u8 + (i / 94) as u8).collect(),
+                1 => b"ab".iter().copied().cycle().take(m).collect(),
+                _ => b"aab".iter().copied().cycle().take(m).collect(),
+            };
+            if m == 0 && k > 0 {
+                continue;
+            }
+            needles.push(n);
+        }
+    }
+    let rep = par::run_items(&needles, |_, needle, r| {
+        let mut ctx = Ctx::new();
+        ctx.set_needle(needle);
+        let subjects = build_all(r, &kinds, needle, None, seed);
+        let m = needle.len();
+        let mut h: Vec<u8> = vec![];
+        let mut order = 0u64;
+        for len in 0..=hmax {
+            // no occurrence; all but the needle's last byte flush with the end
+            for case in 0..2 {
+                h.clear();
+                h.resize(len, b'.');
+                if case == 1 {
+                    if m < 2 || len < m - 1 {
+                        continue;
+                    }
+                    let p = len - (m - 1);
+                    h[p..].copy_from_slice(&needle[..m - 1]);
+                }
+                order += 1;
+                check_hay(&mut ctx, r, &subjects, needle, &h, Place::Plain, (order % 16) as usize, None, order);
+            }
+            // ONE occurrence at every position
+            if m == 0 || len < m {
+                continue;
+            }
+            for p in 0..=len - m {
+                h.clear();
+                h.resize(len, b'.');
+                h[p..p + m].copy_from_slice(needle);
+                order += 1;
+                check_hay(&mut ctx, r, &subjects, needle, &h, Place::Plain, (order % 16) as usize, None, order);
+            }
+        }
+    });
+    total.merge(rep);
+    bounds.insert("grid".into(), json!({"needle_len": [0, nmax], "haystack_len": [0, hmax], "all_length_pairs": true, "needle_kinds": nkinds, "occurrence": ["none", "one at EVERY position", "truncated at the end"]}));
 }
